@@ -703,3 +703,85 @@ Proof.
   destruct (all_above_tp (hd 0 T) xs Hge) as [-> ->]. destruct (floored_labels T xs) as [-> ->].
   rewrite trap2_pair2 by assumption. reflexivity.
 Qed.
+
+(* per task: BinaryBinnedAUROC.compute() *)
+Theorem broc_fun_floor c cols : cols <> [] -> asc (thresholds c) -> thresholds c <> [] ->
+  (forall t x, In x (task_row t cols) -> hd 0 (thresholds c) <= fst x) ->
+  broc_fun c cols = Some (map (fun t => auroc_exact (floored (thresholds c) (task_row t cols))) (seq 0 (bC c)), thr_q c).
+Proof.
+  intros Hne Hs HT Hge. unfold broc_fun. destruct cols as [|col cols]; [congruence|]. f_equal. f_equal.
+  apply map_ext. intros t. apply binned_auroc_floor_thm; try assumption. apply Hge.
+Qed.
+
+(* multiclass binned AUROC as implemented is NOT the per-class one-vs-rest binned AUROC: it has one entry per
+   sample.  Witnesses: (1) one sample, two classes: lengths 1 vs 2; (2) two samples, two classes (same
+   length): different values. *)
+Lemma mc_binned_auroc_refuted :
+  (exists C T xs, mc_ok C xs = true /\ asc T /\ length (mc_binned_auroc_algo C T xs) <> length (mc_binned_auroc_spec C T xs)) /\
+  (exists C T xs, mc_ok C xs = true /\ asc T /\ length (mc_binned_auroc_algo C T xs) = length (mc_binned_auroc_spec C T xs)
+                  /\ mc_binned_auroc_algo C T xs <> mc_binned_auroc_spec C T xs).
+Proof.
+  split.
+  - exists 2%nat, [0; 8], [([8; 0], 0%nat)]. split; [reflexivity|]. split; [repeat constructor; lia|]. vm_compute. discriminate.
+  - exists 2%nat, [0; 2; 4; 6; 8], [([6; 2], 0%nat); ([2; 6], 0%nat)]. split; [reflexivity|]. split; [repeat constructor; lia|].
+    split; [reflexivity|]. vm_compute. discriminate.
+Qed.
+
+(* ======================================================================================== *)
+(* binned counts (hence binned PR curves and binned AUPRC) depend on the scores only through    *)
+(* their floors                                                                               *)
+(* ======================================================================================== *)
+Lemma last_In_ne (l : list Z) : l <> [] -> In (last l 0) l.
+Proof.
+  induction l as [|x l IH]; intros Hne; [congruence|]. destruct l as [|y l]; [left; reflexivity|].
+  right. change (last (x :: y :: l) 0) with (last (y :: l) 0). apply IH. discriminate.
+Qed.
+Lemma asc_filter (P : Z -> bool) l : asc l -> asc (filter P l).
+Proof.
+  induction 1 as [|a l Hl IH Hall]; [constructor|]. cbn [filter]. destruct (P a); [|exact IH].
+  constructor; [exact IH|]. apply Forall_forall. intros u Hu. apply filter_In in Hu as [Hu _].
+  rewrite Forall_forall in Hall. apply Hall, Hu.
+Qed.
+Lemma asc_last_max l t : asc l -> In t l -> t <= last l 0.
+Proof.
+  induction 1 as [|x l Hl IH Hall]; intros Hin; [destruct Hin|]. destruct l as [|y l].
+  - destruct Hin as [->|[]]. cbn. lia.
+  - change (last (x :: y :: l) 0) with (last (y :: l) 0). destruct Hin as [->|Hin]; [|apply IH, Hin].
+    rewrite Forall_forall in Hall. apply Hall, last_In_ne. discriminate.
+Qed.
+Lemma floor_iff T s t : asc T -> T <> [] -> hd 0 T <= s -> In t T -> (t <=? floorT T s) = (t <=? s).
+Proof.
+  intros Hs Hne Hhd Hin. unfold floorT.
+  assert (Hf : filter (fun u => u <=? s) T <> []).
+  { destruct T as [|u T]; [congruence|]. cbn [hd] in Hhd. cbn [filter]. destruct (Z.leb_spec u s); [discriminate|lia]. }
+  pose proof (last_In_ne _ Hf) as Hl. apply filter_In in Hl as [_ Hl]. apply Z.leb_le in Hl.
+  destruct (Z.leb_spec t s) as [Hts|Hts].
+  - apply Z.leb_le. apply asc_last_max; [apply asc_filter, Hs|]. apply filter_In. split; [exact Hin|apply Z.leb_le, Hts].
+  - apply Z.leb_gt. lia.
+Qed.
+Lemma spec_floor_invariant T xs t : asc T -> T <> [] -> (forall x, In x xs -> hd 0 T <= fst x) -> In t T ->
+  tp_spec t (floored T xs) = tp_spec t xs /\ fp_spec t (floored T xs) = fp_spec t xs /\ fn_spec t (floored T xs) = fn_spec t xs.
+Proof.
+  intros Hs Hne Hge Hin.
+  assert (Htp : tp_spec t (floored T xs) = tp_spec t xs).
+  { unfold tp_spec, floored. rewrite cnt_map. apply cnt_ext_in. intros x Hx. cbn [fst snd]. rewrite floor_iff; auto. }
+  split; [exact Htp|]. split.
+  - unfold fp_spec, floored. rewrite cnt_map. apply cnt_ext_in. intros x Hx. cbn [fst snd]. rewrite floor_iff; auto.
+  - unfold fn_spec. rewrite Htp. destruct (floored_labels T xs) as [-> _]. reflexivity.
+Qed.
+Theorem binned_counts_floor_invariant T xs : asc T -> T <> [] -> (forall x, In x xs -> hd 0 T <= fst x) ->
+  bin_tp T (floored T xs) = bin_tp T xs /\ bin_fp T (floored T xs) = bin_fp T xs /\ bin_fn T (floored T xs) = bin_fn T xs.
+Proof.
+  intros Hs Hne Hge. destruct (bin_vectors_spec T xs Hs) as (-> & -> & ->).
+  destruct (bin_vectors_spec T (floored T xs) Hs) as (-> & -> & ->).
+  repeat split; apply map_ext_in; intros t Ht; apply (spec_floor_invariant T xs t Hs Hne Hge Ht).
+Qed.
+(* PARTIAL: binned AUPRC of the scores = binned AUPRC of the floored scores (which all sit ON thresholds).
+   Missing for the full statement: on floored scores the riemann sum over threshold indices equals
+   [auprc_exact] (thresholds with an empty bucket, and all but the last copy of a duplicated threshold,
+   contribute a zero recall increment).  That step is tied on every run: exhaustively for <= 4 samples and
+   on random inputs against both the Coq [auprc_exact] and the real exact binary_auprc. *)
+Theorem binned_auprc_floor_invariant T xs : asc T -> T <> [] -> (forall x, In x xs -> hd 0 T <= fst x) ->
+  auprc_curve (map zq (bin_tp T xs)) (map zq (bin_fp T xs)) (map zq (bin_fn T xs))
+  = auprc_curve (map zq (bin_tp T (floored T xs))) (map zq (bin_fp T (floored T xs))) (map zq (bin_fn T (floored T xs))).
+Proof. intros Hs Hne Hge. destruct (binned_counts_floor_invariant T xs Hs Hne Hge) as (-> & -> & ->). reflexivity. Qed.
